@@ -21,7 +21,7 @@ def pyrepr(v, classes: dict) -> str:
 	if isinstance(v, int):
 		return str(v)
 	if isinstance(v, float):
-		return '%.17g' % v
+		return '0' if v == 0 else '%.17g' % v  # -0.0 and 0.0 are the same value
 	if isinstance(v, str):
 		o = "'"
 		for ch in v:
